@@ -2,6 +2,7 @@
     rewriting, instance-name trie, patcher, hierarchical instance names.
     Statements only; proofs are in Routing/*Proofs.v. *)
 From BBS Require Import Common.Sx Routing.Names Routing.NamesProofs Routing.Trie Routing.TrieProofs Routing.TrieFull Routing.TrieFullMon Routing.TrieFullMonHier Routing.TrieFullMonPatcher
+  Routing.TrieFullMonDemux Routing.TrieFullMonAll
   Routing.Patcher Routing.PatcherProofs Routing.Demux Routing.DemuxProofs Routing.HierNames Routing.HierProofs Run.R19.
 Open Scope Z_scope.
 
@@ -80,20 +81,58 @@ Example remove_example :
   /\ remove (set (set empty_trie [a; b] 3) [a] 4) [a] = Ok (set empty_trie [a; b] 3, false).
 Proof. vm_compute. repeat split; reflexivity. Qed.
 
-(** The monitor is silent on the model's own output — trie histories (input kind 0).
-    Full statement: for every input on which the model does not panic,
-      mon19 inp (run19 inp) = nil
-    (all four input kinds).  Proved here for kind 0: all three trie clauses
-    (1 longest prefix, 2 exact lookup / membership, 3 Remove's "became empty")
-    hold of what the model answers, for every history; the model panics only on a
-    Remove of a name whose node does not exist (second theorem: no panic when
-    every Remove is of a registered name and every Set value is >= 0). *)
-Theorem monitor_silent_on_model_trie_partial : forall inp,
+(** ------------------------------------------- the monitor on the model
+    The monitor [mon19] (the decidable check that judges the Go code) is silent on
+    the model's own output [run19], for every input such that
+    - kind 0 (trie history): the model does not panic (it panics only on a Remove
+      of a name whose node does not exist, a nil dereference in Go; second theorem
+      below: no panic when every Remove is of a registered name and every Set
+      value is >= 0);
+    - kind 2 (demultiplexer): every owner index has a backend description and the
+      instance names in the operations are well-formed ([op_wf]: name_ok (split
+      inst); for GetFromComposite only when parent and child carry the same name);
+    - kind 1 (patcher) and kind 3 / any other kind (hierarchical decorator, any
+      backend description, error names, FindMissing faults): no hypothesis.
+    Each hypothesis is necessary: [monitor_on_model_needs_*] below. *)
+Theorem monitor_silent_on_model : forall inp, model_input_ok inp -> mon19 inp (run19 inp) = nil.
+Proof. exact mon19_silent_on_model. Qed.
+Print Assumptions monitor_silent_on_model.
+
+Example model_input_ok_examples :
+  let a := [97%N] in let b := [98%N] in
+  model_input_ok (L [A 0; L [L [A 0; enc_str a; A 3]; L [A 3; enc_str (a ++ [47%N] ++ b)]; L [A 1; enc_str a]]])
+  /\ model_input_ok (L [A 2; L [L [enc_str a; enc_str b]]; L [L [L []; A 0]];
+                         L [L [A 3; enc_dgs [(a ++ [47%N] ++ b, 1%N); (b, 2%N)]]]]).
+Proof.
+  split; (split; [intros H; vm_compute in H; try discriminate; vm_compute; try discriminate
+                 |intros H; vm_compute in H; try discriminate; vm_compute; split; reflexivity]).
+Qed.
+
+(** the hypotheses are needed: a trie history on which the model panics (Remove of
+    a name without node); a demultiplexer input with the ill-formed name "a/"; a
+    demultiplexer configuration whose owner has no backend *)
+Example monitor_on_model_needs_no_panic :
+  let inp := L [A 0; L [L [A 4; enc_str [97%N]]; L [A 1; enc_str [98%N]]]] in
+  run19 inp = panic_obs /\ mon19 inp (run19 inp) = [2].
+Proof. vm_compute. split; reflexivity. Qed.
+Example monitor_on_model_needs_wf_names :
+  let inp := L [A 2; L [L [enc_str [97%N]; enc_str [98%N]]]; L [L [L []; A 0]];
+                L [L [A 0; enc_dg ([97%N; 47%N], 1%N)]]] in
+  mon19 inp (run19 inp) = [7].
+Proof. vm_compute. reflexivity. Qed.
+Example monitor_on_model_needs_backends :
+  let inp := L [A 2; L [L [enc_str [97%N]; enc_str [98%N]]]; L [];
+                L [L [A 0; enc_dg ([97%N], 1%N)]]] in
+  mon19 inp (run19 inp) = [7; 8].
+Proof. vm_compute. reflexivity. Qed.
+
+(** the four kinds separately *)
+Theorem monitor_silent_on_model_trie : forall inp,
   sx_Z (sx_nth inp 0) = 0 ->
   run_trie (sx_list (sx_nth inp 1)) empty_trie <> None ->
   mon19 inp (run19 inp) = nil.
 Proof. exact mon19_silent_on_trie_model. Qed.
-Print Assumptions monitor_silent_on_model_trie_partial.
+Print Assumptions monitor_silent_on_model_trie.
 
 Theorem trie_model_no_panic_on_registered_removes : forall inp,
   sx_Z (sx_nth inp 0) = 0 ->
@@ -101,6 +140,15 @@ Theorem trie_model_no_panic_on_registered_removes : forall inp,
   run_trie (sx_list (sx_nth inp 1)) empty_trie <> None /\ mon19 inp (run19 inp) = nil.
 Proof. exact mon19_silent_on_trie_model_registered. Qed.
 Print Assumptions trie_model_no_panic_on_registered_removes.
+
+(** ... demultiplexer inputs (kind 2), clauses 6-10, faulty backends included *)
+Theorem monitor_silent_on_model_demux : forall inp,
+  sx_Z (sx_nth inp 0) = 2 ->
+  (length (dec_cfg (sx_nth inp 1)) <= length (sx_list (sx_nth inp 2)))%nat ->
+  forallb op_wf (sx_list (sx_nth inp 3)) = true ->
+  mon19 inp (run19 inp) = nil.
+Proof. exact mon19_silent_on_demux_model. Qed.
+Print Assumptions monitor_silent_on_model_demux.
 
 (** ... patcher inputs (kind 1), clauses 4 and 5: no hypothesis *)
 Theorem monitor_silent_on_model_patcher : forall inp,
